@@ -34,7 +34,7 @@ ASSUMPTIONS = ["decorator/with arguments are compile-time literals of the direct
 HERE = os.path.dirname(os.path.abspath(__file__))
 # model variant: 0 = the code as it is (value-less directive strings are stored as None);
 # flip to 1 when proposed_fixes/C41-valueless_directive_string_parsed_to_None.diff is applied to /repo
-STRICT = int(os.environ.get("C41_STRICT", "0"))
+STRICT = int(os.environ.get("C41_STRICT", "1"))
 
 DUMP = r'''
 import sys, json
